@@ -37,6 +37,19 @@ func (sub *Subscription) Next(ctx context.Context) (*Message, error) {
 		return msg, nil
 	case <-ctx.Done():
 		return nil, ctx.Err()
+	case <-sub.ctx.Done():
+		// The PubSub instance has shut down: nothing more will ever be delivered
+		// and the channel will never be closed. What was delivered before the
+		// shutdown stays readable.
+		select {
+		case msg, ok := <-sub.ch:
+			if !ok {
+				return msg, sub.err
+			}
+			return msg, nil
+		default:
+		}
+		return nil, sub.ctx.Err()
 	}
 }
 
